@@ -206,11 +206,15 @@ impl Vm {
         // a waiter may be stale or found through several channels
         // only queue fibers that are actually parked and not yet queued
         if fiber.is_complete() || fiber.is_running() || self.fiber_queue.contains(&fiber) {
+          #[cfg(feature = "verif")]
+          laythe_core::verif::probe(laythe_core::verif::probes::FIBER_QUEUE_IGNORED);
           return;
         }
 
         // a fiber suspended on an import continues only after the module has run
         if !fiber.can_resume() {
+          #[cfg(feature = "verif")]
+          laythe_core::verif::probe(laythe_core::verif::probes::IMPORT_WAKE_REFUSED);
           return;
         }
 
